@@ -4,6 +4,7 @@
 From Coq Require Import ZArith List Bool String Reals.
 From VQ Require Import Num Model.Vec Model.Core Proofs.CoreNearest Glue.CoreGlue.
 From VQ Require Import Model.Einops Model.Layout Glue.EinopsGlueBase Glue.EinopsGlueHeads.
+From VQ Require Import Model.Machine Model.History Proofs.HistoryProofs.
 Import ListNotations.
 Open Scope R_scope.
 
@@ -230,3 +231,44 @@ Theorem C01_src_heads_sep_idx :
           (n < e "n")%nat -> (h < e "h")%nat -> @rearr A p e (@of3 A J) [b; n; h] = @heads_sep_idx A J b n h).
 Proof. exact (@EinopsGlueHeads.einops_heads_sep_idx). Qed.
 Print Assumptions C01_src_heads_sep_idx.
+
+(* implicit *)
+Theorem C01_history_call_reads_current_codebook :
+  forall (F : Type) (o : ops F) (fsqrt : F -> F) (cfg : ccfg F) (s : cstate F) 
+         (hs : list (hop F)) (s0 : cstate F) (training freeze temp_pos : bool) (xs : list (vec F))
+         (mask : option (list bool)) (w : oracle F) (idx : list nat),
+       @In (cstate F * op F * out F) (s0, @Call F training freeze temp_pos xs mask w, @Indices F idx)
+         (@htrace F o fsqrt cfg s hs) ->
+       @initted F s0 = true ->
+       g_gumbel_noise.g_gumbel_noise (@c_stochastic F cfg) temp_pos training = false ->
+       idx = @map (vec F) nat (@select F o (@score_of F o fsqrt cfg) (@embed F s0)) xs.
+Proof. exact (@HistoryProofs.history_call_reads_current_codebook). Qed.
+Print Assumptions C01_history_call_reads_current_codebook.
+
+(* implicit *)
+Theorem C01_history_euclid_nearest :
+  forall (cfg : ccfg R) (s : cstate R) (hs : list (hop R)) (s0 : cstate R)
+         (training freeze temp_pos : bool) (xs : list (vec R)) (mask : option (list bool)) 
+         (w : oracle R) (idx : list nat) (t : nat) (x : Rv) (i : nat),
+       @c_cosine R cfg = false ->
+       @In (cstate R * op R * out R) (s0, @Call R training freeze temp_pos xs mask w, @Indices R idx)
+         (@htrace R R_ops sqrt cfg s hs) ->
+       @initted R s0 = true ->
+       g_gumbel_noise.g_gumbel_noise (@c_stochastic R cfg) temp_pos training = false ->
+       @embed R s0 <> [] ->
+       @nth_error (vec R) xs t = @Some Rv x ->
+       shaped (@Datatypes.length R x) (@embed R s0) ->
+       (i < @Datatypes.length (vec R) (@embed R s0))%nat ->
+       @sqdist R R_ops x (@nth (vec R) (@nth nat t idx 0%nat) (@embed R s0) []) <=
+       @sqdist R R_ops x (@nth (vec R) i (@embed R s0) []).
+Proof. exact (@HistoryProofs.history_euclid_nearest). Qed.
+Print Assumptions C01_history_euclid_nearest.
+
+(* implicit *)
+Theorem C01_history_write_forgets :
+  forall (F : Type) (o : ops F) (fsqrt : F -> F) (cfg : ccfg F) (s s' snew : cstate F)
+         (pre pre' post : list (hop F)),
+       @htrace F o fsqrt cfg (@hrun F o fsqrt cfg s (pre ++ [@HWrite F snew])) post =
+       @htrace F o fsqrt cfg (@hrun F o fsqrt cfg s' (pre' ++ [@HWrite F snew])) post.
+Proof. exact (@HistoryProofs.history_write_forgets). Qed.
+Print Assumptions C01_history_write_forgets.
